@@ -19,7 +19,7 @@ RULE = ('one descriptor = (device profile, api sync/async, trigger kind in {link
         'signature) among runs in which the trigger actually fired.')
 ASSUMPTIONS = ['link errors are reported the two ways RadioDriver does: from its own thread, or from inside send_packet '
                'in the calling thread', 'virtual-time horizon of 150 s per blocking call stands in for "bounded time"']
-REQUIRED = ['mon.attempts_with_duplicated_answers', 'mon.close_in_a_port_or_parameter_callback_of_the_application', 'mon.attempts', 'mon.trigger_fired', 'mon.reconnects', 'mon.fault_before_first_packet',
+REQUIRED = ['mon.reconnects_issued_at_once_from_the_failure_notification', 'mon.attempts_with_duplicated_answers', 'mon.close_in_a_port_or_parameter_callback_of_the_application', 'mon.attempts', 'mon.trigger_fired', 'mon.reconnects', 'mon.fault_before_first_packet',
             'mon.fault_mid_setup', 'mon.fault_after_connected', 'mon.close_in_callback', 'mon.sync_api', 'mon.async_api',
             'mon.line_preempted_runs', 'mon.three_cycle_histories', 'mon.fault_during_driver_connect']
 DESC_TIMEOUT = 1500
@@ -58,6 +58,12 @@ def cases(tier, seed):
                                     'mems': mk, 'api': api, 'trigger': trig, 'reporter': reporter, 'sched': pol,
                                     'line_p': lp, 'S': S, 'resend': rnd.random() < 0.3, 'prefault': n % 3 == 0, 'drain': n % 2 == 1,
                                     'dup': n % 4 == 2})
+    for i, (nlog, nparam, proto, mk) in enumerate(profiles):
+        for reporter in ('sender', 'driver'):
+            for (pol, lp) in (scheds if tier == 'thorough' else scheds[:2]):
+                n += 1
+                out.append({'part': 'autoreconnect', 'seed': seed * 1000003 + n, 'nlog': nlog, 'nparam': nparam, 'proto': proto, 'mems': mk,
+                            'reporter': reporter, 'sched': pol, 'line_p': lp, 'resend': n % 3 == 0, 'kmax': 10})
     return out
 
 
@@ -486,8 +492,88 @@ Recorder_NAMES = ('connection_requested', 'link_established', 'connected', 'full
                   'disconnected', 'connection_lost')
 
 
+def run_autoreconnect(desc, ctx):
+    """The application reconnects the same object at once when it is told that the link failed - from inside the
+    failure callback, or from a thread that callback wakes - while the library may still be unwinding the failed
+    attempt.  The second attempt is well-formed and reaches fully_connected."""
+    from vf import detsched as ds, simcf, simlink
+    from cflib.crazyflie import Crazyflie
+    prof = gen.profile(desc['seed'] // 7, desc['nlog'], desc['nparam'], proto=desc['proto'], mems=_mems(desc['mems']))
+    for k in range(1, desc['kmax'] + 1):
+        for way in ('callback', 'thread'):
+            dev = simcf.SimCF(prof)
+            spec = simlink.LinkSpec(dev, needs_resending=desc['resend'])
+            uri = 'sim://c02r'
+            simlink.SIMS[uri] = spec
+            ob = {'ev': [], 'reopened_at': None, 'problems': []}
+
+            def fn(s):
+                dev.now = lambda: s.now
+                cf = Crazyflie()
+                go = ds.Event()
+                full = ds.Event()
+
+                def on_event(ev):
+                    ob['ev'].append(ev)
+                    if ev[0] in ('connection_failed', 'connection_lost') and ob['reopened_at'] is None:
+                        ob['reopened_at'] = len(ob['ev'])
+                        spec.fail_after_tx = None
+                        if way == 'callback':
+                            cf.open_link(uri)
+                        else:
+                            go.set()
+                    if ev[0] == 'fully_connected' or (ev[0] == 'connected' and not dev.params):
+                        full.set()
+                rec = harness.Recorder(cf, on_event=on_event)   # noqa
+                import threading
+
+                def reopener():
+                    go.wait(200.0)
+                    if go.is_set():
+                        cf.open_link(uri)
+                th = threading.Thread(target=reopener)
+                if way == 'thread':
+                    th.start()
+                spec.fail_after_tx = k
+                spec.fail_reporter = desc['reporter']
+                cf.open_link(uri)
+                full.wait(200.0)
+                s.sleep(2.0)
+                ob['faults'] = spec.faults_fired
+                ob['link_open'] = cf.link is not None
+                ob['state'] = str(cf.state)
+                if way == 'thread':
+                    go.set()
+                    th.join()
+                cf.close_link()
+                s.sleep(0.5)
+            _, abort, sch = harness.sched_case(fn, seed=desc['seed'] * 13 + k, policy=desc['sched'], line_p=desc['line_p'], horizon=1500.0,
+                                               max_steps=12_000_000)
+            ctx.evals()
+            rp = dict(desc, only_k=k)
+            if not ob.get('faults'):
+                continue
+            ctx.count('mon.reconnects_issued_at_once_from_the_failure_notification')
+            names = [e[0] for e in ob['ev']]
+            info = {'k': k, 'reporter': desc['reporter'], 'reconnect_from': way, 'events': names[:16]}
+            ctx.nontrivial(('autoreconnect', k, way, desc['reporter'], tuple(names), sch.signature()))
+            if abort is not None:
+                ctx.violate('R9:reconnect-at-once:hang', dict(info, abort=str(abort), threads=getattr(abort, 'table', None)), replay=rp)
+                continue
+            for (name, exc, tb) in sch.deaths:
+                ctx.violate('R8:thread-died:%s' % exc.split('(')[0], dict(info, traceback=tb), replay=rp)
+            second = names[ob['reopened_at']:] if ob['reopened_at'] is not None else []
+            second = [n for n in second if n not in ('disconnected',) or second.index(n) > 0]
+            want = ['connection_requested', 'link_established', 'connected'] + (['fully_connected'] if dev.params else [])
+            got = [n for n in second if n in want]
+            if got != want or any(n in ('connection_failed', 'connection_lost') for n in second):
+                ctx.violate('R9:reconnect-at-once-did-not-complete:got-' + '+'.join(second[:5] or ['nothing']), info, replay=rp)
+
+
 def run(desc, ctx):
     harness.init()
+    if desc.get('part') == 'autoreconnect':
+        return run_autoreconnect(desc, ctx)
     if 'only_k' in desc:
         ks = [desc['only_k']]
         seeds = [desc['only_sseed']]
